@@ -35,7 +35,7 @@ def expand(names, ndim):
     return out
 
 
-def gen_tree(rng, ndim, levelmax, ncpu, p_refine, max_octs, owner_fn=None):
+def gen_tree(rng, ndim, levelmax, ncpu, p_refine, max_octs, owner_fn=None, levelmin=1):
     two = 2 ** ndim
     octs = [{"level": 1, "owner": 1, "father": 0, "fcell": 0, "son": [0] * two}]
     frontier = [1]
@@ -43,7 +43,8 @@ def gen_tree(rng, ndim, levelmax, ncpu, p_refine, max_octs, owner_fn=None):
         nxt = []
         for o in frontier:
             for ind in range(two):
-                if rng.random() < p_refine and len(octs) < max_octs:
+                # levels below levelmin are completely refined (RAMSES' base grid)
+                if lev < levelmin or (rng.random() < p_refine and len(octs) < max_octs):
                     octs.append({"level": lev + 1, "owner": 1, "father": o, "fcell": ind, "son": [0] * two})
                     octs[o - 1]["son"][ind] = len(octs)
                     nxt.append(len(octs))
@@ -102,7 +103,7 @@ def finish(rng, octs, ndim, ncpu, nboundary, levelmax, ghost_p=0.4, **kw):
            # a Hilbert decomposition gives every cpu a non-empty key interval: with fewer keys than cpus (tiny 1-D/2-D outputs) the
            # ordering is declared planar, otherwise the DOMAIN table of the info file would contradict the ownership of the octs
            "nout": kw.get("nout", rng.choice([1, 7, 12])), "ordering": kw.get("ordering", "hilbert" if (ndim < 3 and ncpu <= 2 ** (ndim * (levelmax + 1))) else "planar"),
-           "sink": kw.get("sink"), "reqs": [], "hilbert3": False, "bk": []}
+           "sink": kw.get("sink"), "reqs": [], "hilbert3": False, "bk": [], "levelmin": kw.get("levelmin", 1)}
     return cfg
 
 
@@ -217,8 +218,10 @@ def seeded(n, seed, tier, ndims=(1, 2, 3)):
         nb = rng.choice([0, 0, 1, 2])
         levelmax = rng.choice([1, 2, 3] if tier == "quick" else [1, 2, 3, 4])
         p = {1: 0.7, 2: 0.5, 3: 0.35}[ndim]
-        octs = gen_tree(rng, ndim, levelmax, ncpu, p, 28 if tier == "quick" else 60)
-        out.append(finish(rng, octs, ndim, ncpu, nb, levelmax))
+        levelmin = rng.choice([1, 1, 2, 3]) if ndim < 3 else rng.choice([1, 1, 2])
+        levelmin = min(levelmin, levelmax)
+        octs = gen_tree(rng, ndim, levelmax, ncpu, p, 28 if tier == "quick" else 60, levelmin=levelmin)
+        out.append(finish(rng, octs, ndim, ncpu, nb, levelmax, levelmin=levelmin))
     return out
 
 
